@@ -24,19 +24,19 @@ type RaftOpts struct {
 	PutPct              uint
 	// probabilities (percent) that the nondeterministic environment reads yield TRUE
 	BiasFD, BiasLeaderTimeout, BiasClientTimeout uint
-	CrashAfter                                    int // commits before a crasher may be scheduled
-	MaxOps                                        int // per client, 0 = unbounded (exact=false only)
+	CrashAfter                                   int // commits before a crasher may be scheduled
+	MaxOps                                       int // per client, 0 = unbounded (exact=false only)
 }
 
 // HistOp is one client operation of the recorded history (logical times = commit numbers).
 type HistOp struct {
-	Client     int
-	Put        bool
-	Key, Val   string // Val: value written (Put) or returned (Get)
-	OK         bool   // Get: found
-	Call, Ret  int64  // Ret = -1: no response recorded (still open)
-	Retries    []int64
-	ReqIdx     int
+	Client    int
+	Put       bool
+	Key, Val  string // Val: value written (Put) or returned (Get)
+	OK        bool   // Get: found
+	Call, Ret int64  // Ret = -1: no response recorded (still open)
+	Retries   []int64
+	ReqIdx    int
 }
 
 // RaftSim is a raftkvs Sim plus its client history.
@@ -413,7 +413,8 @@ func Raftkvs(seed int64, o RaftOpts) *RaftSim {
 		Constants: []string{"ExploreFail = TRUE", "Debug = FALSE", fmt.Sprintf("NumServers = %d", NS), fmt.Sprintf("NumClients = %d", NC),
 			fmt.Sprintf("BufferSize = %d", o.BufferSize), "MaxTerm = 1000", "MaxCommitIndex = 1000", fmt.Sprintf("MaxNodeFail = %d", o.MaxNodeFail),
 			"LogConcat = 2", "LogPop = 1", "LeaderTimeoutReset = TRUE", "NumRequests = 1", `AllStrings = {"s1", "s2"}`},
-		Invariants: []string{"ElectionSafety", "LogMatching", "LeaderCompleteness", "StateMachineSafety", "ApplyLogOK", "plogOK"},
+		// LeaderCompleteness as written in raftkvs.tla is stronger than the property (see the monitor) and is not handed to TLC
+		Invariants: []string{"ElectionSafety", "LogMatching", "StateMachineSafety", "ApplyLogOK", "plogOK"},
 		Params:     map[string]any{"NumServers": NS, "NumClients": NC, "MaxNodeFail": o.MaxNodeFail, "fifo": o.FIFO, "exact": o.Exact, "BufferSize": o.BufferSize},
 		MaxSteps:   400}
 	s.IdleRounds = 12
@@ -487,8 +488,9 @@ func NewRaftMonitor(NS int, get func(string) tla.Value, prefix string, withNetwo
 	rs := &RaftStats{Leaders: map[int]int{}}
 	m := &RaftMonitor{Stats: rs}
 	// history state
-	entryAt := map[[2]int]rentry{}   // (index, term) -> entry, over all logs ever held
-	committedAt := map[int]rentry{}  // index -> entry, over all servers and times (entries at or below a commitIndex)
+	entryAt := map[[2]int]rentry{}  // (index, term) -> entry, over all logs ever held
+	committedAt := map[int]rentry{} // index -> entry, over all servers and times (entries at or below a commitIndex)
+	commitTerm := map[int]int{}     // index -> term in which the entry was first seen committed (term of the first server whose commitIndex covered it)
 	prevLog := make([][]rentry, NS+1)
 	prevState := make([]string, NS+1)
 	prevEnabled := make([]bool, NS+1)
@@ -574,12 +576,17 @@ func NewRaftMonitor(NS int, get func(string) tla.Value, prefix string, withNetwo
 					add("C08:sim:two-committed-entries-at-index", "server %d holds %s at committed index %d, earlier committed there: %s", i, logs[i][k].v.String(), k+1, old.v.String())
 				} else if !ok {
 					committedAt[k+1] = logs[i][k]
+					commitTerm[k+1] = term[i]
 					rs.Applied++
 				}
+				// Leader Completeness as the property states it: an entry committed in term T is in the log of every
+				// leader of a LATER term. (raftkvs.tla's state form compares with the entry's creation term instead,
+				// which also blames a stale leader of an earlier term than the commit — legal in Raft: observed on a
+				// real 5-server cluster, leader of term 18 stopped, entry of term 10 committed in term 19.)
 				for j := 1; j <= NS; j++ {
-					if state[j] == "leader" && term[j] >= logs[i][k].term {
+					if state[j] == "leader" && term[j] > commitTerm[k+1] {
 						if k >= len(logs[j]) || !logs[j][k].same(logs[i][k]) {
-							add("C08:sim:LeaderCompleteness", "entry %s committed at index %d on server %d is missing from the log of leader %d (term %d)", logs[i][k].v.String(), k+1, i, j, term[j])
+							add("C08:sim:LeaderCompleteness", "entry %s committed at index %d (first seen committed in term %d; held by server %d) is missing from the log of leader %d of the later term %d", logs[i][k].v.String(), k+1, commitTerm[k+1], i, j, term[j])
 						}
 					}
 				}
